@@ -7,12 +7,17 @@ then the same run is replayed with SIGINT delivered at every main-actor yield
 point inside the rewrites and at a sample of the other points.
 """
 import copy
+import os
 import random
 import time
 
 from .. import props
 from .. import sim
 from .. import workload
+
+
+def seams_outpath(res):
+    return 'out' + res.spec.get('ext', '.smt2')
 
 
 def _kind(data, complete):
@@ -70,6 +75,10 @@ class C06(props.Prop):
             # wall-clock cap per case (bounds how many points are replayed,
             # never what a replay does)
             'case_budget': 6 if tier == 'quick' else 90,
+            # crash-restart: SIGKILL inside a rewrite, then a second run with
+            # the same output file name
+            'restarts': rng.choice([0, 0, 1, 2]) if tier == 'quick' else
+            rng.choice([0, 2, 4]),
         }
 
     def focus(self, case, viol):
@@ -121,6 +130,70 @@ class C06(props.Prop):
         v.probes['observations_torn'] += bad
         return bad
 
+    def check_file_is_adopted_input(self, res, v, point):
+        """After a completed rewrite the file holds exactly the adopted input
+        (not the new text followed by something else)."""
+        for k, w in enumerate(res.rec.writes, 1):
+            if w.get('completed') and w.get('file_matches_tree') is False:
+                data = res.rec.complete_texts[k - 1] if k - 1 < len(
+                    res.rec.complete_texts) else b''
+                v.violate(
+                    'file-differs-from-adopted-input',
+                    'C06:rewritten-file-is-not-the-adopted-input',
+                    f'after rewrite #{k} the output file does not hold the '
+                    f'adopted input (mixed with other content)',
+                    point=point, rewrite=k,
+                    adopted=res.rec.text(w['dig'])[:200],
+                    file=(data or b'')[-200:].decode(errors='replace'))
+                return
+
+    def restart_after_kill(self, case, spec, res, v):
+        """SIGKILL at a point inside a rewrite, then ddSMT is started again
+        with the same output file name on (a prefix of) the work: whatever the
+        killed run left on disk must not end up in the new run's output."""
+        rec = res.rec
+        if not rec.snapshots or not rec.complete_texts:
+            return
+        first = rec.complete_texts[0]
+        if not first:
+            return
+        for nyield, snap in rec.snapshots:
+            s2 = dict(spec)
+            s2.pop('choices', None)
+            s2['faults'] = {}
+            s2['snapshots'] = 0
+            # continue from the first accepted input of the killed run
+            s2['input'] = first.decode(errors='replace')
+            s2['preexisting'] = {fn: data.decode('latin-1')
+                                 for fn, data in snap.items()}
+            s2['seed'] = (spec.get('seed', 0) * 31 + nyield) % (1 << 62)
+            r2 = sim.execute(s2)
+            v.absorb(r2)
+            v.evaluations += 1
+            v.faults['sigkill_then_restart'] += 1
+            if str(r2.outcome).startswith('harness'):
+                continue
+            self.check_file_is_adopted_input(r2, v, [nyield, 'restart'])
+            pre = snap.get(os.path.basename(seams_outpath(r2)))
+            # observations: pre-existing complete file, or own complete texts
+            comp = r2.rec.complete_texts
+            for seq, ny, otag, done, inprog, data in r2.rec.obs:
+                allowed = [comp[done - 1] if done >= 1 else pre]
+                if inprog and done < len(comp):
+                    allowed.append(comp[done])
+                elif inprog:
+                    continue
+                if data not in allowed:
+                    v.violate(
+                        'torn-observation-after-restart',
+                        'C06:reader-sees-torn-file-after-restart',
+                        f'second run after a SIGKILL at point {nyield}: a '
+                        f'reader sees a file that is neither the file the '
+                        f'killed run left nor an accepted input of this run',
+                        point=[nyield, 'restart'],
+                        seen=(data or b'')[:200].decode(errors='replace'))
+                    break
+
     def check_written_before_waiting(self, res, v):
         """Once main has adopted a result (in the parallel paths it raises the
         abort flag at that moment) the output file must be brought up to date
@@ -160,6 +233,7 @@ class C06(props.Prop):
         v = props.Verdict()
         spec_a = dict(spec)
         spec_a['faults'] = {}
+        spec_a['snapshots'] = case.get('restarts', 0)
         res = sim.execute(spec_a)
         v.absorb(res)
         spec['choices'] = res.choices
@@ -185,6 +259,7 @@ class C06(props.Prop):
                       f'temporary directory left after exit: '
                       f'{res.tmp_left_after_exit}')
         self.check_written_before_waiting(res, v)
+        self.check_file_is_adopted_input(res, v, None)
         n_main = rec.main_nyield
         windows = [(a, b) for a, b in rec.rewrite_windows if b is not None]
         inside = list(rec.points_in_rewrite)
@@ -283,6 +358,8 @@ class C06(props.Prop):
                 v.probes[f'interrupt_outcome.{rb.outcome}'] += 1
             if rb.nthreads > 2:
                 v.probes['threads_left'] += 1
+        if case.get('restarts') and case.get('points') is None:
+            self.restart_after_kill(case, spec, res, v)
         v.nontrivial = bool(ntkeys) or (rec.n_points_in_rewrite > 0)
         v.key = res.trace_digest
         v.extra['nt_pairs'] = len(ntkeys)
